@@ -194,13 +194,14 @@ type streamCfg struct {
 	chunkPol, consPol                      int
 	zeroEvery                              bool // every other Read returns (0, nil)
 	fewLines                               int  // fragFewThenAll: number of leading line-sized reads
+	eagerFirst                             int  // >= 0: the first eagerFirst chunks are parsed, delivered and consumed at once, later chunk parsers are starved while the reader can read
 }
 
 // RunStream is one run of E2: one drawn stream and configuration; with a drawn probability the reader fault is
 // injected at *every* byte offset of a short stream (exhaustive over offsets for that stream and configuration).
 func RunStream(r *Run) {
 	c := r.C
-	huge := c.Intn("hugestream", map[bool]int{true: 40, false: 160}[r.thorough()]) == 0
+	huge := c.Intn("hugestream", map[bool]int{true: 40, false: 120}[r.thorough()]) == 0
 	giant := !huge && c.Intn("giantline", map[bool]int{true: 80, false: 700}[r.thorough()]) == 0
 	var stream []byte
 	var want []*MV
@@ -212,7 +213,7 @@ func RunStream(r *Run) {
 	} else {
 		stream, want, desc = genStream(r)
 	}
-	sc := streamCfg{faultAt: -1}
+	sc := streamCfg{faultAt: -1, eagerFirst: -1}
 	if !giant && !huge && c.Intn("zerostorm", 14) == 0 {
 		// a reader that makes no progress on every other call (legal: Read may return 0, nil) over a stream of many
 		// short lines: well over a hundred empty reads, never two in a row
@@ -240,8 +241,12 @@ func RunStream(r *Run) {
 		sc.frag = fragLine + c.Intn("fragbig", 5)
 	}
 	if huge {
-		sc.frag = []int{fragAll, fragGeo, fragFewThenAll, fragFewThenAll}[c.Intn("fraghuge", 4)]
+		sc.frag = []int{fragAll, fragGeo, fragFewThenAll, fragFewThenAll, fragFewThenAll, fragFewThenAll}[c.Intn("fraghuge", 6)]
 		sc.fewLines = 1 + c.Intn("fewlines", 5)
+		if sc.frag == fragFewThenAll && sc.reuseMode == 0 && c.Intn("hugerecycle", 4) != 0 {
+			// small chunks and 10 MiB chunks in one stream are most interesting when results are recycled
+			sc.reuseMode = 1 + c.Intn("hugerecyclemode", 2)
+		}
 		r.stat("streams_above_10MiB", 1)
 	}
 	if giant {
@@ -259,6 +264,15 @@ func RunStream(r *Run) {
 	}
 	sc.eofWithData = c.Intn("eofdata", 2) == 1
 	sc.chunkPol = c.Intn("chunkpol", 3) // 0 FIFO, 1 LIFO, 2 random
+	if c.Intn("eagerfirst", map[bool]int{true: 2, false: 12}[huge]) == 0 {
+		// early results make the round through consumer and reuse channel while the reader is still at work and the
+		// parsers of later chunks have not run: everything a recycled result puts back into circulation is live
+		sc.eagerFirst = 1 + c.Intn("eagerfirstn", 3)
+		if sc.reuseMode == 0 && c.Intn("eagerrecycle", 4) != 0 {
+			sc.reuseMode = 1
+		}
+		r.stat("runs_with_early_chunks_recycled_before_later_ones_are_parsed", 1)
+	}
 	sc.consPol = c.Intn("conspol", 3)   // 0 eager, 1 lazy, 2 random
 	if *flagMode == "kernel-avx2" {
 		setKernel(false)
@@ -491,6 +505,24 @@ func streamExec(r *Run, stream []byte, want []*MV, desc string, sc streamCfg) {
 			case 1: // lazy consumer: only when nothing else can move, or rarely
 				if cl == 2 && len(classes) > 1 && c.Intn("lazy", 8) != 0 {
 					cl = classes[0]
+				}
+			}
+			if sc.eagerFirst >= 0 {
+				early := -1
+				for i, k := range kToks {
+					if k.Arg < sc.eagerFirst {
+						early = i
+						break
+					}
+				}
+				switch {
+				case uTok != nil && (len(res) > 0 || capRes == 0):
+					cl = 2 // consume (and recycle) whatever has been delivered
+				case early >= 0:
+					cl = 1
+					kToks = kToks[early : early+1]
+				case rTok != nil:
+					cl = 0 // later parsers wait while the reader can go on
 				}
 			}
 			var tk *Token
